@@ -96,4 +96,16 @@ theorem perturbPathGuarded_long {γ : Type} (E : PpEnv σ α γ) (ms me : Nat) (
     perturbPathGuarded E ms me path = perturbPath E ms me path := by
   unfold perturbPathGuarded; rw [if_neg (by omega)]
 
+/-- the guarded routine either returns a short path unchanged or IS the unguarded routine: every `perturb_*` theorem
+transfers through this case split -/
+theorem perturbPathGuarded_cases {γ : Type} {E : PpEnv σ α γ} {ms me : Nat} {path out : List σ} {r : Bool}
+    (h : perturbPathGuarded E ms me path = some (out, r)) :
+    (path.length < 2 ∧ out = path ∧ r = false) ∨ (2 ≤ path.length ∧ perturbPath E ms me path = some (out, r)) := by
+  unfold perturbPathGuarded at h
+  split at h
+  · next hl =>
+    simp only [Option.some.injEq, Prod.mk.injEq] at h
+    exact Or.inl ⟨hl, h.1.symm, h.2.symm⟩
+  · next hl => exact Or.inr ⟨by omega, h⟩
+
 end OmplModel.PathOps
